@@ -1,4 +1,7 @@
 """C18 — tokens, errors and breakpoints carry the true source position."""
+import os
+import subprocess
+
 import checklib
 
 
@@ -17,7 +20,35 @@ def decode(p):
         return p
 
 
+GEN = os.path.join(checklib.LEAN, "Ecal", "Gen", "C18.lean")
+
+
+def extract(ctx):
+    """regenerate lean/Ecal/Gen/C18.lean (where the code copies a token's position into errors, messages,
+    stack traces, the except object and break point keys) from the tree under test (go/ast). Verdict per
+    site: 0 established, 1 refuted (breaks the obligation errors_carry_token_pos), 2 unknown shape (reported)."""
+    binp = checklib.go_build(ctx)
+    previous = open(GEN).read() if os.path.exists(GEN) else None
+    if previous is not None:
+        os.remove(GEN)
+    p = subprocess.run([binp, "C18", "-tool", "extract", GEN], stdout=subprocess.PIPE, stderr=subprocess.STDOUT,
+                       text=True, env=dict(checklib.GOENV, VERIF_REPO=checklib.REPO), cwd=ctx.work, timeout=120)
+    if p.returncode != 0 or not os.path.exists(GEN):
+        if previous is None:
+            raise checklib.CheckError("C18: no generated facts and the extractor failed: " + p.stdout[-500:])
+        open(GEN, "w").write(previous)
+        ctx.notes.append("C18 facts NOT regenerated (extractor failed: " + " ".join(p.stdout.split())[:200] + "); the last committed Gen/C18.lean was used")
+        return
+    lines = [l for l in p.stdout.splitlines() if l[:2] in ("0 ", "1 ", "2 ")]
+    ctx.coverage["fact_sites"] = len(lines)
+    ctx.coverage["fact_sites_refuted"] = [l[2:] for l in lines if l.startswith("1 ")]
+    ctx.coverage["fact_sites_unknown_shape"] = [l[2:] for l in lines if l.startswith("2 ")]
+    if ctx.coverage["fact_sites_unknown_shape"]:
+        ctx.notes.append("C18 source fact: sites of unknown shape (no obligation broken): " + "; ".join(ctx.coverage["fact_sites_unknown_shape"])[:400])
+
+
 SPEC = dict(
+    extract=extract,
     lean_modules=["Ecal.Props.C18"],
     shards=8,
     rule=("lex cases: the known-finding/repair corpus, every sequence of <=3 (quick) / <=4 (thorough) atoms from "
